@@ -402,9 +402,12 @@ def tok_rules(repo, tier="quick"):
      obs.append(ob_fail("TOK.T3-atom", fi, dnode, construct="annotation store in the bracket-atom branch", instance="bracket:annotations",
                         reason="annotations of a bracket atom are not stored under that atom's index (the counter before it is advanced)")))
     # annotation parser is the atomistic dialect's
-    pc = [c for st in aarm for c in ast.walk(st) if isinstance(c, ast.Call) and isinstance(c.func, ast.Name) and c.func.id == "_fragment_node_parser"]
-    (obs.append(ob_ok("TOK.T3-atom", fi, pc[0], construct="_fragment_node_parser(annotation text)", instance="bracket:parser", reason="atom annotations go through the fragment dialect")) if pc else
-     obs.append(ob_fail("TOK.T3-atom", fi, dnode, construct="no _fragment_node_parser call", instance="bracket:parser", reason="atom annotations are not parsed with the fragment dialect")))
+    from .gaps import fragment_parser_selection
+    _fi2, psites = fragment_parser_selection(repo)
+    arm_ids = {id(c) for st in aarm for c in ast.walk(st)}
+    pc = [sx for sx in psites if id(sx[0]) in arm_ids and sx[2] in ("selected", "single:atom")]
+    (obs.append(ob_ok("TOK.T3-atom", fi, pc[0][0], construct="annotation text parsed with %s" % pc[0][3], instance="bracket:parser", reason="atom annotations go through the fragment dialect")) if pc else
+     obs.append(ob_fail("TOK.T3-atom", fi, dnode, construct="no call of the atomistic annotation parser in the bracket-atom branch", instance="bracket:parser", reason="atom annotations are not parsed with the fragment dialect")))
 
     # ---- T4: parentheses
     for ch, kind in (("(", "push"), (")", "pop")):
